@@ -257,6 +257,8 @@ fn en_raw(sh: Shape, op: Raw) {
     let sk = scan(&m, &k);
     let pre_k = sk.val;
     let n = m.len();
+    let l0 = old_len(&m);
+    let main_len0 = m.verif_parts().0.len();
     let mut want_k = pre_k;
     reset_counters();
     match op {
@@ -349,6 +351,10 @@ fn en_raw(sh: Shape, op: Raw) {
     assert!(sq.count <= 1 && scan(&m, &k).count == if want_k.is_some() { 1 } else { 0 }, "[C12] the key is not stored exactly once after the chain");
     assert!(m.len() == n + if pre_k.is_none() && want_k.is_some() { 1 } else { 0 }, "[C01] len() wrong after a raw-entry operation");
     assert!(hashes() <= 10 && acct::removes() <= 9 && acct::allocs() <= 1 && acct::rehash() == 0, "[C02] a raw-entry call exceeded the per-call work bound");
+    if pre_k.is_none() && want_k.is_some() {
+        // a key was added through the raw-entry API: the same progress as HashMap::insert
+        post_progress(&m, l0, main_len0);
+    }
     post_inv(&m, &sq);
     assert!(m.get(&k).copied() == want_k, "[C12] a later lookup does not see the write made through the handle");
     kani::cover!(pre_k.is_none() && acct::allocs() == 1, "cls: the inserting call started a resize");
